@@ -193,7 +193,8 @@ type body struct {
 	mut   string
 	lua   []string
 	calls []string
-	raise bool // raises unconditionally when unprotected
+	args  []string // argument-kind labels ("<binding>:<what>=<kind>")
+	raise bool     // raises unconditionally when unprotected
 }
 
 func (b *body) add(format string, a ...any) { b.lua = append(b.lua, fmt.Sprintf(format, a...)) }
@@ -532,132 +533,17 @@ func (g *sgen) mutBody() *body {
 	cs := &b.calls
 	switch x := g.draw(100, "mk"); {
 	case x < 12:
-		b.kind, b.mut = "image.copy", "image.copy"
-		src, _ := g.srcRef("", "src", false, cs)
-		tgt := g.tgtRef("tgt", false, cs)
-		switch g.draw(5, "opts") {
-		case 0:
-			b.add("image.copy(%s, %s, {digestTags = true})", src, tgt)
-		case 1:
-			b.add("image.copy(%s, %s, {forceRecursive = true, includeExternal = true})", src, tgt)
-		case 2:
-			b.add("image.copy(%s, %s, {platforms = {\"linux/amd64\"}})", src, tgt)
-		default:
-			b.add("image.copy(%s, %s)", src, tgt)
-		}
-		b.add(`log("copied")`)
-		b.call("image.copy")
+		return g.copyBody()
 	case x < 22:
-		b.kind, b.mut = "tag.delete", "tag.delete"
-		src, _ := g.srcRef("", "src", false, cs)
-		b.add("tag.delete(%s)", src)
-		b.add(`log("tag deleted")`)
-		b.call("tag.delete")
+		return g.tagDeleteBody()
 	case x < 32:
-		b.kind, b.mut = "manifest:delete", "manifest:delete"
-		src, _ := g.srcRef("", "src", false, cs)
-		switch g.draw(4, "how") {
-		case 0:
-			b.add("local m = manifest.head(%s)", src)
-			b.call("manifest.head")
-		case 1:
-			b.add("local m = manifest.getList(%s)", src)
-			b.call("manifest.getList")
-		case 2:
-			b.add("local m = manifest.get(%s)", src)
-			b.call("manifest.get")
-		default:
-			b.add("local m = image.manifestHead(%s)", src)
-			b.call("image.manifestHead")
-		}
-		b.add("m:delete()")
-		b.add(`log("manifest deleted")`)
-		b.call("manifest:delete")
-	case x < 52:
-		b.kind, b.mut = "manifest.put", "manifest.put"
-		src, _ := g.srcRef("", "src", false, cs)
-		tgt := g.tgtRef("tgt", false, cs)
-		switch g.draw(7, "how") {
-		case 0:
-			g.getManifest(b, src, "gm", true)
-			b.add("manifest.put(m, %s)", tgt)
-			b.call("manifest.put")
-		case 1:
-			g.getManifest(b, src, "gm", false)
-			b.add("m:put(%s)", tgt)
-			b.call("manifest:put")
-		case 2:
-			g.getManifest(b, src, "gm", false)
-			b.add(`if m.annotations then m.annotations["org.example.c19"] = "put" end`)
-			b.add(`if m.layers and m.layers[1] then m.layers[1].annotations = {["org.example.c19"] = "put"} end`)
-			b.add("local m2 = m:export()")
-			if g.chance(50, "method") {
-				b.add("m2:put(%s)", tgt)
-				b.call("manifest:export", "manifest:put")
-			} else {
-				b.add("manifest.put(m2, %s)", tgt)
-				b.call("manifest:export", "manifest.put")
-			}
-		case 3:
-			s2, _ := g.srcRef("", "src2", true, cs)
-			b.add("manifest.put(%s, %s)", s2, tgt)
-			b.call("manifest.put")
-		case 4:
-			b.add("manifest.put(image.config(%s), %s)", src, tgt)
-			b.call("image.config", "manifest.put")
-		default:
-			b.add("local m = manifest.getList(%s)", src)
-			b.add("manifest.put(m, %s)", tgt)
-			b.call("manifest.getList", "manifest.put")
-		}
-		b.add(`log("manifest put")`)
-	case x < 70:
-		b.kind, b.mut = "blob.put", "blob.put"
-		pi := g.place("", "spl")
-		d := g.pick(pi.blobs, "dig", bogusDigest)
-		how := g.draw(8, "how")
-		if (how == 4 || how == 5) && !g.canBlobGet(pi) {
-			how = 0
-		}
-		switch how {
-		case 0, 1, 2:
-			b.add("local d, n = blob.put(%s, %s)", g.tgtRef("tgt", true, cs), q(fmt.Sprintf("c19 content %d %d", g.si, g.k)))
-			b.add(`log("blob put " .. tostring(d) .. " " .. tostring(n))`)
-			b.call("blob.put")
-		case 3:
-			b.add("local d, n = blob.put(%s, %s)", g.tgtRef("tgt", false, cs), q(fmt.Sprintf("c19 content %d %d", g.si, g.k)))
-			b.add(`log("blob put " .. tostring(d) .. " " .. tostring(n))`)
-			b.call("blob.put")
-		case 4, 5:
-			b.add("local b = blob.get(%s, %s)", q(pi.p.Base()), q(d))
-			b.add("local d, n = blob.put(%s, b)", g.tgtRef("tgt", false, cs))
-			b.add(`log("blob copied " .. tostring(d) .. " " .. tostring(n))`)
-			b.call("blob.get", "blob.put")
-		case 6:
-			src, _ := g.srcRef("", "src", false, cs)
-			b.add("local c = image.config(%s)", src)
-			b.add("local d, n = blob.put(%s, c)", g.tgtRef("tgt", false, cs))
-			b.add(`log("config pushed " .. tostring(d) .. " " .. tostring(n))`)
-			b.call("image.config", "blob.put")
-		default:
-			fn := g.pick([]string{"get", "head"}, "bfn", "get")
-			if fn == "get" && !g.canBlobGet(pi) {
-				fn = "head"
-			}
-			b.add("local b = blob.%s(%s, %s)", fn, q(pi.p.Base()), q(d))
-			b.add("local d, n = b:put(%s)", g.tgtRef("tgt", false, cs))
-			b.add(`log("blob method put " .. tostring(d) .. " " .. tostring(n))`)
-			b.call("blob."+fn, "blob:put")
-		}
+		return g.manifestDeleteBody()
+	case x < 50:
+		return g.manifestPutBody()
+	case x < 72:
+		return g.blobPutBody()
 	case x < 82:
-		b.kind, b.mut = "image.importTar", "image.importTar"
-		file := RootToken + "/scratch/import.tar"
-		if g.draw(12, "missing") == 0 {
-			file = RootToken + "/scratch/missing.tar"
-		}
-		b.add("image.importTar(%s, %s)", g.tgtRef("tgt", false, cs), q(file))
-		b.add(`log("imported")`)
-		b.call("image.importTar")
+		return g.importBody()
 	case x < 88:
 		b.kind, b.mut = "reference.close", "reference.close"
 		pi := g.place("", "pl")
@@ -778,6 +664,7 @@ func (g *sgen) stmt() Stmt {
 	}
 	st := Stmt{Kind: b.kind, Mut: b.mut, Lua: strings.Join(lines, "\n") + "\n", Safe: protected}
 	st.Raise = b.raise && !protected && cond == ""
+	st.Args = b.args
 	seen := map[string]bool{}
 	for _, cl := range b.calls {
 		if !seen[cl] {
